@@ -19,7 +19,7 @@ P = {
  "C02": (True, "guard dominance on the visibility filter and on each transport's success return, value-flow of the phantom argument through helper call sites, who-may-write (Valid), constant-label table (go/ssa)",
          "Decides for every input and history: connection matching can only see registrations whose own Valid flag is set, taken from the per-phantom map of the connection's original destination (through every helper, by value-flow of the phantom parameter from the socket's original destination); "
          "each transport's success is dominated by its identity checks — min: the map element under the presented 32-byte tag with found==true; prefix: transport type == Prefix and registered prefix id == matched prefix on the typed path, keyed by the tag revealed with a station key; obfs4: the registration whose keys produced the matching mark; "
-         "Valid is set true only inside register (reached only from AddRegistration) and false only when tracking; identifier labels are constant, distinct and keyed by the shared secret. Cryptographic unforgeability and expiry (C08) are not decided.",
+         "Valid is set true only inside register (reached only from AddRegistration) and false only when tracking; identifier labels are constant, distinct and keyed by the shared secret. Cryptographic unforgeability and expiry (C08) are not decided. Also decided: removeRegistration deletes a record the sweep selected from both tables whatever else holds (only the not-found outcome of the lookups may stop it), so an expired registration cannot keep matching.",
          "4/C02"),
  "C03": (True, "connection-effect (who-may-touch) rule over all uses of the connection value, must-pass 'wait out the deadline' on every exit, interval evaluation of the deadline, guard dominance on transport thresholds (go/ssa)",
          "Decides for every input and pacing: before a positive match no code path in the handler or in any WrapConnection implementation (computed from the interface) can write to, close, re-deadline or hand away the client connection — its only uses are observers, SetDeadline, Read, drain into io.Discard and the offer to WrapConnection; the wrapped connection is only returned with a nil error or, for obfs4, handed to the handshake after the mark matched; "
@@ -34,7 +34,7 @@ P = {
  "C05": (True, "must-pass / reachability path rules with nil-fact path sensitivity on go/ssa (io.Reader contract, defer registration, pairing)",
          "Decides on every path of halfPipe/Proxy: data returned with a read error is written before the loop exits; the written slice is the read prefix and counters use the write count; the loop continues only after a full, error-free write; "
          "WaitGroup release and close of both connections are deferred before the first return and the closer always reaches Close; wg.Add matches the goroutines started; session gauge paired; covert and client connections closed by defers. "
-         "This covers every fault position structurally (each exit edge of the loop), which the sampled fault tests cannot; stream equality under all chunkings is not decided.",
+         "This covers every fault position structurally (each exit edge of the loop), which the sampled fault tests cannot; stream equality under all chunkings is not decided. Also decided: every write count is added to the tunnel counter before any exit of halfPipe, and the deferred teardown closes both sides on every path through it.",
          "4/C05"),
  "C06": (True, "single-resolution count, value-flow of the returned literal, guard dominance of the policy tests and their polarity, must-pass store-before-valid, who-may-write (Covert), reviewed dial-site table (go/ssa)",
          "Decides for every covert string and configuration: the guard resolves at most once and every non-empty result is JoinHostPort of that one resolution's address, dominated by the not-blocklisted edges of the subnet test on that same address and of the domain test on the resolved host, a 16-bit port parse and a successful resolution; the subnet test consults allowlist/blocklist with the right polarity; "
@@ -49,7 +49,7 @@ P = {
  "C08": (True, "value-flow key agreement, must-pass pairing, finite predicate abstraction (truth table) of the sweep condition, constant tables (go/ssa)",
          "Decides: the timeout map is keyed by the same function of (phantom, transport identifier) as the registration map at insertion and activation (so each tracked registration has its own record for every history of secrets/transports/families); "
          "both maps are inserted into / deleted from on the same paths and empty per-phantom maps are removed; the sweep selects a record iff (unused && age>T_unused) || age>T_active, exhaustively over all valuations of its atoms; T_unused=10 min and T_active=6 h with no other writer; activation flips the looked-up record; a ticker loop sweeps. "
-         "These are history-independent structural conditions; set-level behaviour over concrete histories and wall-clock timing are not decided. Also decided: connection lookups are computed from the live table on every call (no memoised set can survive a removal).",
+         "These are history-independent structural conditions; set-level behaviour over concrete histories and wall-clock timing are not decided. Also decided: connection lookups are computed from the live table on every call (no memoised set can survive a removal). Also decided: removeRegistration deletes every selected record from both tables whatever else holds (reachability game; only not-found may stop it).",
          "4/C08"),
  "C14": (True, "effect analysis over the static call closure of the selection entry points, guard dominance, constant evaluation at call sites, value-flow of the port flag (go/ssa)",
          "Decides: nothing reachable from Select/SelectPhantom* reads or writes process-global state (math/rand globals, weightedrand global Pick, time, package variables), so a result depends on its inputs alone under any schedule; "
@@ -68,7 +68,7 @@ P = {
          "4/C19"),
  "C20": (True, "who-may-write over file-creating APIs, guard dominance and must-pass ordering (marshal -> write temp -> rename), value-flow of the rollback, lockset (go/ssa)",
          "Decides for every crash point and write fault: the only file the client library ever creates is a freshly (randomly) named temporary in the ClientConf's own directory; the final name is only ever the destination of a rename, reached only after Marshal and the write both succeeded, and the renamed file is the one written; "
-         "a failed SetClientConf restores the pointer loaded before the assignment; every store into the in-memory config is under the write lock and followed by a save on every path. With POSIX rename atomicity (assumed) no crash point can leave a truncated or mixed file. Durability across power loss is not in the statement.",
+         "a failed SetClientConf restores the pointer loaded before the assignment; every store into the in-memory config is under the write lock and followed by a save on every path. With POSIX rename atomicity (assumed) no crash point can leave a truncated or mixed file. Durability across power loss is not in the statement. Also decided: on the save path every failed marshal / write / sync reaches the caller as an error (it cannot be overwritten by a later result such as Close), also through a write helper.",
          "4/C20"),
  "C16": (True, "must-pass pairing with defers, lockset guarded-by, value-flow key agreement, read-then-err path rule, guard dominance, constant comparison (go/ssa)",
          "Decides: listener registrations (certificate, channel) are released on every exit of an accept; the routing maps and the SCTP read state are only touched under their mutexes; registration, routing, verification and certificate selection use the hello-random / certificates derived from the same PSK with consistent client/server roles on listener, stand-alone server and dialer; "
@@ -83,7 +83,7 @@ P = {
  "C18": (True, "finite predicate abstraction of the Lookup conditions, guard dominance (polarity, nil tests, sibling wiring), lockset guarded-by, must-pass pairing (go/ssa)",
          "Decides: each cache Lookup answers true iff the key is present and its age is below the expiration (all valuations); probe results go to the cache of their verdict and hits return their cache's verdict; the probe is reached only on a double miss; "
          "Init wires each cache only from its own duration/capacity setting and passes the capacity it tested; every call through an optional cache is dominated by a nil test of the same field; cache maps only under their mutex; LRU inserts are registered, evictions delete under the lock, LRU sized by the configured capacity. "
-         "History-independent structural conditions of 'never stale, never flipped, bounded'; behaviour over concrete histories and the LRU library itself are not decided.",
+         "History-independent structural conditions of 'never stale, never flipped, bounded'; behaviour over concrete histories and the LRU library itself are not decided. Also decided: a cache entry is stored only after the probe made in the same call (directly or through helpers), so a hit cannot renew an entry.",
          "4/C18"),
  "C09": (True, "lockset guarded-by with helper summaries, channel-operation shape rules, lock-order graph, blocking reachability (go/ssa)",
          "Decides for every schedule: the registration maps/flags are only touched under the registration mutex (write lock for writes), the New announcement has a single locked call site dominated by !Valid with Valid=true stored first, "
